@@ -418,6 +418,7 @@ def iter_consumer(I, m, a, dt):
 @model(r'^<(.*) as Iterator>::collect::<(.*)>$')
 def iter_collect(I, m, a, dt):
     target = m.group(2)
+    if re.match(r'^(?:std::string::)?String$', target.strip()): return I.call('<String as FromIterator<String>>::from_iter::<_>', [a[0]])
     return I.call(f'<{target} as FromIterator<_>>::from_iter::<_>', [a[0]])
 
 @model(r'^<(.*) as Iterator>::next$')
@@ -463,3 +464,48 @@ def iter_adapter2(I, m, a, dt):
     k = m.group(2)
     if k == 'skip_while': return adapter('ad_skip_while', inner=a[0], f=a[1], tyname=m.group(1))
     raise Unsupported('adapter ' + k)
+
+# ---- RefCell / Cell (single-threaded interior mutability: a shared cell) and hash maps with string / integer keys ----
+@model(r'^<(?:std::cell::|core::cell::)?RefCell<(.*)> as Default>::default$')
+def refcell_default(I, m, a, dt): return VObj('refcell', cell=Cell(I.call(f'<{m.group(1)} as Default>::default', [])))
+@model(r'^(?:std::cell::|core::cell::)?RefCell::<.*>::new$')
+def refcell_new(I, m, a, dt): return VObj('refcell', cell=Cell(a[0]))
+@model(r'^(?:std::cell::|core::cell::)?RefCell::<.*>::(borrow|borrow_mut|get_mut|try_borrow|try_borrow_mut)$')
+def refcell_borrow(I, m, a, dt):
+    rc = deref(I, a[0]); r = VRef(rc.cell, [])
+    return ok(r) if m.group(1).startswith('try') else r
+@model(r"^<(?:std::cell::|core::cell::)?(?:Ref|RefMut)<'_, .*> as (?:std::ops::)?(?:Deref|DerefMut)>::(deref|deref_mut)$")
+def ref_guard_deref(I, m, a, dt): return I.read_ref(a[0]) if isinstance(I.read_ref(a[0]), VRef) else a[0]
+HM = r'(?:hashbrown::|std::collections::)?(?:hash_map::|map::)?HashMap'
+@model(r'^<' + HM + r'<.*> as Default>::default$|^' + HM + r'::<.*>::(new|with_capacity)$')
+def hashmap_new(I, m, a, dt): return MapV('__hash__')
+def _hkey(I, k):
+    k = deref(I, k)
+    from .strings import StrS
+    if isinstance(k, StrS):
+        if not k.is_concrete(): raise Unsupported('hash map key with symbolic characters')
+        return ('s', k.text())
+    if isinstance(k, VInt) and is_conc(k.v): return ('i', k.v)
+    raise Unsupported(f'hash map key {k!r}')
+def _hfind(I, mp_, key):
+    hk = _hkey(I, key)
+    for e in mp_.entries:
+        if _hkey(I, e[0]) == hk: return e
+    return None
+@model(r'^' + HM + r'::<.*>::(get|get_mut|contains_key|remove)(?:::<.*>)?$')
+def hashmap_get(I, m, a, dt):
+    mp_ = getmap(I, a[0]); e = _hfind(I, mp_, a[1]); k = m.group(1)
+    if k == 'contains_key': return VBool(e is not None)
+    if e is None: return none()
+    if k == 'remove': mp_.entries.remove(e); return some(e[1].val)
+    return some(VRef(e[1], []))
+@model(r'^' + HM + r'::<.*>::insert$')
+def hashmap_insert(I, m, a, dt):
+    mp_ = getmap(I, a[0]); e = _hfind(I, mp_, a[1])
+    if e is None: mp_.entries.append([a[1], Cell(a[2])]); return none()
+    old = e[1].val; e[1].val = a[2]; return some(old)
+@model(r'^' + HM + r'::<.*>::(len|is_empty|clear)$')
+def hashmap_len(I, m, a, dt):
+    mp_ = getmap(I, a[0]); k = m.group(1)
+    if k == 'clear': mp_.entries.clear(); return VUnit()
+    return VInt(len(mp_.entries), 'usize') if k == 'len' else VBool(not mp_.entries)
